@@ -37,8 +37,8 @@ klass("Symbol", 1, "esp_kconfiglib.core", fields={
     "_cached_bool_val": field("optint", "inv", inv="inv_cached_bool_val"),
     "_cached_vis": field("optint", "inv", inv="inv_cached_vis"),
     "_cached_assignable": field("any", "inv"),
-    "_write_to_conf": field("bool", "mut"),
-    "_has_active_indirect_set": field("bool", "mut"),
+    "_write_to_conf": field("bool", "inv", inv="inv_write_to_conf"),
+    "_has_active_indirect_set": field("bool", "inv", inv="inv_has_active_indirect_set"),
     "_sdkconfig_value": field("any", "mut"),
     "_loaded_as_default": field("any", "mut"),
     "_was_set": field("any", "mut"),
